@@ -9,6 +9,8 @@
 (*   freq    : for EVERY assignment of the support (observed or not) the   *)
 (*             count is within the Hoeffding bound B of N * 2^L2, in       *)
 (*             integer arithmetic (count * 2^KP vs N * 2^(KP+L2));           *)
+(*   pair    : every pairwise marginal count (two addresses, two values or *)
+(*             absence) is within the same bound of its exact expectation; *)
 (*   total   : the counts add up to N;                                     *)
 (*   det     : the same keys gave the same traces twice (logged flag).     *)
 (***************************************************************************)
@@ -54,6 +56,14 @@ SimClauses(ev) ==
   IN  F("support", \E i \in 1..Len(obs) : obs[i].c \notin sup)
       \cup F("freq", \E c \in sup : LET l2 == L2(Exec(p, ev.args, c, FALSE)) IN
                         KP + l2 < 0 \/ AbsI(cnt(c) * Pow2(KP) - ev.n * Pow2(KP + l2)) > ev.bound * Pow2(KP))
+      \cup F("pair", LET pr == [c \in sup |-> Pow2(KP + L2(Exec(p, ev.args, c, FALSE)))]          \* pairwise marginals: key reuse between two addresses
+                          AU == Addrs(p)                                                            \* moves a pair cell by >= 1/16 even when every joint cell is tiny
+                          has(c, a, u) == IF u < 0 THEN a \notin DOMAIN c ELSE a \in DOMAIN c /\ c[a] = u
+                          on(c, a, u, b, v) == IF has(c, a, u) /\ has(c, b, v) THEN 1 ELSE 0
+                      IN  \E a \in AU, b \in AU : a # b /\ \E u \in -1..2, v \in -1..2 :
+                            LET ex == SumAll([c \in sup |-> pr[c] * on(c, a, u, b, v)])
+                                ob == SumAll([i \in 1..Len(obs) |-> obs[i].n * on(obs[i].c, a, u, b, v)])
+                            IN  AbsI(ob * Pow2(KP) - ev.n * ex) > ev.bound * Pow2(KP))
       \cup F("total", tot # ev.n)
       \cup F("mass", LET f == [c \in sup |-> Pow2(KP + L2(Exec(p, ev.args, c, FALSE)))] IN SumAll(f) # Pow2(KP))   \* the spec's own probabilities sum to 1
       \cup F("det", ~ev.det)
